@@ -118,7 +118,7 @@ var agentDefs = []agentDef{
 		a.Storage = mem.NewStorage(1 * mem.MB)
 		spec := idealmemcontroller.DefaultSpec()
 		spec.Width = 1
-		spec.Latency = 2
+		spec.Latency = 3
 		spec.CacheLineSize = 64
 		comp := idealmemcontroller.MakeBuilder().WithRegistrar(reg).
 			WithResources(idealmemcontroller.Resources{Storage: a.Storage}).
